@@ -75,7 +75,16 @@ def other_cost(cfg, rs):
 
 
 def n_leaf_calls(cfg):
-    return max(2, sum(1 for i in cfg['spec']['prog'] if i['op'] == 'call'))
+    """number of leaf-module calls of one forward pass (choice blocks explode into their branches + combiner)"""
+    n = 0
+    mods = cfg['spec']['mods']
+    for i in cfg['spec']['prog']:
+        if i['op'] == 'call':
+            d = mods[i['m']]
+            n += (sum(len(b) for b in d['branches']) + 1) if d['t'] == 'sn' else 1
+        elif i['op'] == 'add' and cfg['method'] == 'mps':
+            n += 1
+    return max(2, n + (1 if cfg['method'] == 'mps' else 0))
 
 
 def gen_softmax_kw(cfg, rs, allow_temperature=True):
@@ -104,7 +113,7 @@ def gen_base_op(cfg, rs, enabled, swarm):
         op = {'op': k, 'which': rs.choice(['net', 'nas', 'both', 'both']),
               'lam': rs.choice([0.0, 1e-4, 1e-3, 1e-2]), 'lr': rs.choice([0.01, 0.05, 0.2]),
               'cost': rs.chance(0.8)}
-        if swarm.get('aborts') and rs.chance(0.15):
+        if swarm.get('aborts') and rs.chance(0.25):
             op['abort'] = rs.randint(1, n_leaf_calls(cfg))
         return op
     if k == 'opt_step':
